@@ -21,6 +21,10 @@ func gen(t *rapid.T) peng.Case {
 		Cancel: true, MaxSleepUs: 1500, SlowQFUs: 500, StreamItems: 4, AwaitProb: 3, ErrorNodes: true, FullQuorum: true, ReleaseModes: []string{"", "early"}})
 	c.Probe = true // the fence: an RPC to every node after everything has answered
 	c.Jitter = peng.GenJitter(t)
+	// a node that has been unreachable since it was registered: calls end by its error
+	if c.N >= 2 && rapid.IntRange(0, 2).Draw(t, "downNode") == 0 {
+		c.Down = []int{rapid.IntRange(0, c.N-1).Draw(t, "down")}
+	}
 	return c
 }
 
@@ -28,7 +32,15 @@ type residue struct {
 	routers    map[int]int
 	goroutines []string
 	detail     []string
+	// grpc's client-side goroutines (connections the manager's nodes hold)
+	grpcClient int
+	grpcKinds  map[string]int
 }
+
+// grpcPerNode bounds grpc's client-side goroutines per node once everything has settled: a
+// connected node holds one ClientConn (3 callback serializers) with one transport (reader,
+// writer, possibly keepalive), an unreachable one a ClientConn and its reconnection loop.
+const grpcPerNode = 8
 
 func measure(r *peng.Result) residue {
 	res := residue{routers: map[int]int{}}
@@ -45,7 +57,12 @@ func measure(r *peng.Result) residue {
 			}
 		}
 	}
+	res.grpcKinds = map[string]int{}
 	for _, g := range scen.Stacks() {
+		if k := peng.ClientGoroutine(g); strings.HasPrefix(k, "grpc-client:") {
+			res.grpcClient++
+			res.grpcKinds[k]++
+		}
 		lf := g.LibFrame()
 		if strings.HasPrefix(lf, "RawConfiguration.handleAsyncCall") || strings.HasPrefix(lf, "RawConfiguration.handleCorrectableCall") || strings.HasPrefix(lf, "(*channel).sendMsg.func") {
 			res.goroutines = append(res.goroutines, lf+"@"+g.State)
@@ -80,7 +97,7 @@ func run(c peng.Case) vt.Verdict {
 		deadline := time.Now().Add(scen.B)
 		for {
 			final = measure(r)
-			if (len(final.routers) == 0 && len(final.goroutines) == 0) || time.Now().After(deadline) {
+			if (len(final.routers) == 0 && len(final.goroutines) == 0 && final.grpcClient <= grpcPerNode*c.N) || time.Now().After(deadline) {
 				return
 			}
 			time.Sleep(2 * time.Millisecond)
@@ -161,6 +178,18 @@ func run(c peng.Case) vt.Verdict {
 		return vt.Verdict{OK: false, Key: "C18/call-goroutines-remain/" + k, History: r.Events, Classes: classes,
 			Msg: fmt.Sprintf("%v after every call ended, %d per-call goroutine(s) remain: %s", scen.B, len(final.goroutines), strings.Join(final.goroutines, "; "))}
 	}
+	if final.grpcClient > grpcPerNode*c.N {
+		var kinds []string
+		for k, n := range final.grpcKinds {
+			kinds = append(kinds, fmt.Sprintf("%dx %s", n, k))
+		}
+		sort.Strings(kinds)
+		return vt.Verdict{OK: false, Key: "C18/connections-pile-up", History: r.Events, Classes: classes,
+			Msg: fmt.Sprintf("%v after every call ended the manager's %d nodes hold %d client-side grpc goroutines (a node needs at most %d): connections were created per call and never closed: %s", scen.B, c.N, final.grpcClient, grpcPerNode, strings.Join(kinds, "; "))}
+	}
+	if len(c.Down) > 0 {
+		classes = append(classes, "node-never-reachable")
+	}
 	res := vt.Pass(len(ends) >= 3, classes...)
 	res.Inconclusive = r.Late
 	return res
@@ -169,7 +198,7 @@ func run(c peng.Case) vt.Verdict {
 func TestProp(t *testing.T) {
 	vt.Main(t, vt.Spec[peng.Case]{
 		ID:           "C18",
-		Rule:         "rapid-generated sequences of 10-120 calls of all 20 kinds from 1-4 threads, each ending in a generated way (quorum before all replies, exhaustion, cancellation/deadline before or after the send, node error, correctable done, stream abandoned, zero targets, future never read), in half of the cases with seeded jitter at the statement-level yield points of the instrumented runtime; after the sequence every handler has returned (all gates open), every call has ended and a fence RPC to every node has completed; then, polling up to the hang bound, the number of routing entries of every node (read-only accessor injected at build time) must be 0 and no goroutine may sit in a per-call frame (async handler, correctable handler, send watcher); non-trivial (measured) = at least 3 distinct ways of ending in the sequence",
+		Rule:         "rapid-generated sequences of 10-120 calls of all 20 kinds from 1-4 threads, each ending in a generated way (quorum before all replies, exhaustion, cancellation/deadline before or after the send, node error, correctable done, stream abandoned, zero targets, future never read), in half of the cases with seeded jitter at the statement-level yield points of the instrumented runtime; in a third of the cases one node unreachable since it was registered; after the sequence every handler has returned (all gates open), every call has ended and a fence RPC to every node has completed; then, polling up to the hang bound, the number of routing entries of every node (read-only accessor injected at build time) must be 0 and no goroutine may sit in a per-call frame (async handler, correctable handler, send watcher); non-trivial (measured) = at least 3 distinct ways of ending in the sequence",
 		Gen:          gen,
 		Run:          run,
 		TrackCurrent: true,
